@@ -1,6 +1,7 @@
 import Chewing.Proofs.CliFile
 import Chewing.Proofs.CliSqlOrder
 import Chewing.Proofs.CliAccept
+import Chewing.Proofs.CliRaw
 /-!
 # C20 — The dictionary compiler and dumper are inverse on well-formed sources
 
@@ -33,6 +34,8 @@ a concrete witness and a partial theorem that excludes exactly the class):
   the parser accepts — `malformed_full_refuted`, `malformed_reported_partial`;
 * F18 `F18-tone1` / `empty-phrase`: accepted lines whose dump does not read back —
   `roundtrip_full_refuted`, `dump_compile_roundtrip` (hypothesis `WellFormedRecord`);
+* F45 `invalid-utf8`: a line that is not valid UTF-8 aborts the run without a line number, `--skip-invalid` or
+  not — `skip_invalid_full_refuted`, `invalid_utf8_aborts`, `raw_run_is_text_run`, `skip_invalid_partial`;
 * F34 `F34-sqlite-order`: the SQLite file compiled from the dump lists the candidates of a one-syllable
   key in ascending order of their text instead of insertion order — `recompiled_lookup_sqlite_refuted`,
   `recompiled_lookup_sqlite_single` (what it answers), `recompiled_lookup_iff` (exact class `F34Changes`),
@@ -518,6 +521,62 @@ theorem malformed_reported_partial (f : Flags) (src : List Text) (i : Nat) (l : 
           rw [hempty] at hlen
           exact hs (List.eq_nil_of_length_eq_zero hlen)
         · exact Or.inr (Or.inl hlen)
+
+/-! ## 4b. lines that are not valid UTF-8 (finding F45) -/
+
+/-- full-strength, on files given as bytes: with `--skip-invalid` the tool always gets through the file
+    and builds -/
+def SkipInvalidFull : Prop :=
+  ∀ (f : Flags) (src : RawLines), f.skip = true → ∃ r, compileRaw f src = .ran r ∧ r.inserted.isSome = true
+
+/-- refuted on the unchanged tree (F45): `測 5 ㄘㄜˋ` followed by a line that is not valid UTF-8 — `line?`
+    returns the I/O error, exit status 1, no output, no line number -/
+theorem skip_invalid_full_refuted : ¬ SkipInvalidFull := by
+  intro h
+  obtain ⟨r, hr, _⟩ := h ⟨false, false, true⟩ [some [28204, 32, 53, 32, 12568, 12572, 715], none] rfl
+  have : compileRaw ⟨false, false, true⟩ [some [28204, 32, 53, 32, 12568, 12572, 715], none] = .ioError 1 := by decide
+  rw [this] at hr
+  cases hr
+
+/-- the exact class of F45: some line the loop reads (any line but the skipped CSV header) is not valid UTF-8 -/
+def KnownInvalidUtf8 (f : Flags) (src : RawLines) : Prop := ∃ i, InvalidAt f src i
+
+/-- inside the class the run stops at the first such line, whatever the flags: nothing is reported by
+    number, nothing is built -/
+theorem invalid_utf8_aborts (f : Flags) (src : RawLines) (i : Nat) (h : InvalidAt f src i)
+    (hfirst : ∀ j < i, ¬ InvalidAt f src j) : compileRaw f src = .ioError i :=
+  (compileRaw_ioError_iff f src i).mpr ⟨h, hfirst⟩
+
+/-- … and exactly inside it: the run gets through the file iff the file is outside the class -/
+theorem raw_run_completes_iff (f : Flags) (src : RawLines) :
+    (∃ r, compileRaw f src = .ran r) ↔ ¬ KnownInvalidUtf8 f src := by
+  rw [compileRaw_ran_iff]
+  exact ⟨fun h ⟨i, hi⟩ => h i hi, fun h i hi => h ⟨i, hi⟩⟩
+
+/-- **outside the class the byte-level run is the text-level run** all theorems above are about (the invalid
+    CSV header, which is skipped unread, counts as the empty line) -/
+theorem raw_run_is_text_run (f : Flags) (src : RawLines) (h : ¬ KnownInvalidUtf8 f src) :
+    compileRaw f src = .ran (compileRun f (src.map (·.getD []))) :=
+  compileRaw_valid f src (fun i hi => h ⟨i, hi⟩)
+
+/-- **skip_invalid_partial** — outside the class `--skip-invalid` always builds, from exactly the records of
+    the lines that parse -/
+theorem skip_invalid_partial (f : Flags) (src : RawLines) (hs : f.skip = true) (h : ¬ KnownInvalidUtf8 f src) :
+    ∃ r, compileRaw f src = .ran r ∧ r.inserted = some (validRecs f (src.map (·.getD []))) :=
+  ⟨_, raw_run_is_text_run f src h, skip_invalid_keeps_valid f _ hs⟩
+
+/-- an invalid CSV header is not in the class: `\xff\xfe` / `測試,5,ㄘㄜˋ ㄕˋ` compiles with `--csv` -/
+example : ¬ KnownInvalidUtf8 ⟨true, false, false⟩ [none, some [28204, 35430, 44, 53, 44, 12568, 12572, 715, 32, 12565, 715]] := by
+  rintro ⟨i, h1, h2⟩
+  match i with
+  | 0 => exact h2 rfl rfl
+  | 1 => simp at h1
+  | i + 2 => simp at h1
+example : compileRaw ⟨true, false, false⟩ [none, some [28204, 35430, 44, 53, 44, 12568, 12572, 715, 32, 12565, 715]] =
+    .ran { reported := [], inserted := some [⟨[28204, 35430], 5, [10268, 8708]⟩] } := by decide
+/-- bytes: `readRawLines` finds the invalid line of `測 5 ㄘㄜˋ\n\xff\xfe 5\n` -/
+example : readRawLines [230, 184, 172, 32, 53, 32, 227, 132, 152, 227, 132, 156, 203, 139, 10, 255, 254, 32, 53, 10] =
+    [some [28204, 32, 53, 32, 12568, 12572, 715], none] := by decide
 
 /-! ## non-vacuity: concrete instances of the hypotheses -/
 
